@@ -171,7 +171,7 @@ func genLayout(r *Rng) layout {
 		// a layout with a padding file that covers at least one whole piece: data, padding up to the next piece
 		// boundary plus one or two whole pieces, sometimes more data behind it
 		d := r.Pick(1, l.pl-1, l.pl, l.pl+1, r.Range(1, 2*l.pl))
-		l.lens = []int{d, (l.pl-d%l.pl)%l.pl + l.pl*r.Pick(1, 1, 2)}
+		l.lens = []int{d, (l.pl-d%l.pl)%l.pl + l.pl*r.Pick(1, 2, 2, 3)}
 		l.pads = []bool{false, true}
 		if r.Chance(60) {
 			l.lens = append(l.lens, r.Pick(1, l.pl-1, l.pl, r.Range(1, 2*l.pl)))
